@@ -179,8 +179,14 @@ class DiameterAssociation(object):
 
 
     def recv_message_from_queue(self) -> None:
-        while not self._stop_threads and self.transport:
-            self.transport._recv_data_available.wait(timeout=1)
+        while not self._stop_threads:
+            #: close() drops the reference to the transport without holding 
+            #: the lock, so it is read once per round.
+            transport = self.transport
+            if transport is None:
+                break
+
+            transport._recv_data_available.wait(timeout=1)
 
             self.lock.acquire()
 
@@ -188,7 +194,7 @@ class DiameterAssociation(object):
                 self.lock.release()
                 break
 
-            data_stream = self.transport.pop_recv_data_stream()
+            data_stream = transport.pop_recv_data_stream()
 
             diameter_conn_logger.debug("Grabbing data stream from "\
                                        "Transport Layer to Diameter Layer.")
@@ -210,7 +216,7 @@ class DiameterAssociation(object):
                                                f"been found in stream: "\
                                                f"{self._recv_pending[:DIAMETER_HEADER_LENGTH].hex()}")
                     self._recv_pending = b""
-                    self.transport._stop_threads = True
+                    transport._stop_threads = True
                     break
 
                 if len(self._recv_pending) < length:
